@@ -33,6 +33,10 @@ type InterfaceType struct {
 	TypePackage string
 	IsPointer   bool
 	IsVariadic  bool
+
+	// typ is the go/types type this entry was derived from (nil for hand-built models);
+	// when both sides of a comparison have it, type identity decides instead of the printed name
+	typ types.Type
 }
 
 // LoadInterfaces loads specified interfaces from the analysis pass
@@ -170,6 +174,7 @@ func convertTypesToInterfaceType(t types.Type) InterfaceType {
 	if ptr, ok := t.(*types.Pointer); ok {
 		inner := convertTypesToInterfaceType(ptr.Elem())
 		inner.IsPointer = true
+		inner.typ = t
 		return inner
 	}
 
@@ -187,6 +192,7 @@ func convertTypesToInterfaceType(t types.Type) InterfaceType {
 			TypePackage: pkgPath,
 			IsPointer:   false,
 			IsVariadic:  false,
+			typ:         t,
 		}
 	}
 
@@ -197,6 +203,7 @@ func convertTypesToInterfaceType(t types.Type) InterfaceType {
 			TypePackage: "",
 			IsPointer:   false,
 			IsVariadic:  false,
+			typ:         t,
 		}
 	}
 
@@ -205,5 +212,6 @@ func convertTypesToInterfaceType(t types.Type) InterfaceType {
 		TypeName:   t.String(),
 		IsPointer:  false,
 		IsVariadic: false,
+		typ:        t,
 	}
 }
